@@ -6,6 +6,6 @@ CONSTANTS
   Randomised = TRUE
   MaxLabels = 3
   MinItems = 4
-  Syms = {"R", "G", "Z", "C", "L", "lamp", "sw_closed", "V", "I", "ACV", "ACI", "CV"}
+  Syms = {"R", "G", "Z", "C", "L", "lamp", "sw_open", "V", "I", "ACV", "ACI", "CV"}
 INVARIANT Check
 CHECK_DEADLOCK FALSE
